@@ -1,3 +1,4 @@
+import TeaalVerif.Props.C11
 /-!
 # C16 — spacetime stamps are unambiguous (partial: the stamp algebra)
 
@@ -95,5 +96,131 @@ theorem slip_unique : ∀ (seen rest : List Nat), (slipPairs seen rest).Nodup
 
 /-- non-vacuity -/
 example : slipPairs [] [3, 5, 3, 3, 5] = [(3, 0), (5, 0), (3, 1), (3, 2), (5, 1)] := by decide
+
+
+/-! ### exactly one activity per executed update, for every input
+
+A program whose statements are tensor updates, `addActivity` calls and everything else, with loops whose trip counts depend on the
+state and alternatives decided by the state.  `bal p = some (u, a)`: outside loops `p` performs `u` updates and `a` activities on
+every path, and every loop body performs as many activities as updates.  Then every execution reports exactly
+`(#updates - u) + a` activities - in particular as many activities as updates when `u = a` - whatever the trip counts are. -/
+
+inductive EProg (T : Type) where
+  | skip
+  | other (h : T → T)
+  | update (h : T → T)
+  | activity
+  | seq (p q : EProg T)
+  | loop (n : T → Nat) (body : EProg T)
+  | alt (c : T → Bool) (p q : EProg T)
+
+instance {T : Type} : Inhabited (EProg T) := ⟨.skip⟩
+
+/-- state, number of updates executed, number of activities reported -/
+def EProg.run {T : Type} : EProg T → T × Nat × Nat → T × Nat × Nat
+  | .skip, s => s
+  | .other h, s => (h s.1, s.2.1, s.2.2)
+  | .update h, s => (h s.1, s.2.1 + 1, s.2.2)
+  | .activity, s => (s.1, s.2.1, s.2.2 + 1)
+  | .seq p q, s => q.run (p.run s)
+  | .loop n body, s => C11.iter body.run (n s.1) s
+  | .alt c p q, s => if c s.1 then p.run s else q.run s
+
+def EProg.bal {T : Type} : EProg T → Option (Nat × Nat)
+  | .skip => some (0, 0)
+  | .other _ => some (0, 0)
+  | .update _ => some (1, 0)
+  | .activity => some (0, 1)
+  | .seq p q => match p.bal, q.bal with
+    | some (u1, a1), some (u2, a2) => some (u1 + u2, a1 + a2)
+    | _, _ => none
+  | .loop _ body => match body.bal with
+    | some (u, a) => if u = a then some (0, 0) else none
+    | none => none
+  | .alt _ p q => match p.bal, q.bal with
+    | some x, some y => if x = y then some x else none
+    | _, _ => none
+
+theorem iter_balanced {T : Type} (f : T × Nat × Nat → T × Nat × Nat)
+    (h : ∀ s, (f s).2.1 + s.2.2 = (f s).2.2 + s.2.1) : ∀ (k : Nat) (s : T × Nat × Nat), (C11.iter f k s).2.1 + s.2.2 = (C11.iter f k s).2.2 + s.2.1
+  | 0, s => by simp only [C11.iter]; omega
+  | k + 1, s => by
+    have h1 := iter_balanced f h k (f s)
+    have h2 := h s
+    simp only [C11.iter]
+    omega
+
+/-- **activities and updates advance together** -/
+theorem run_balanced {T : Type} : ∀ (p : EProg T) (u a : Nat), p.bal = some (u, a) → ∀ s : T × Nat × Nat,
+    (p.run s).2.1 + s.2.2 + a = (p.run s).2.2 + s.2.1 + u
+  | .skip, u, a, h, s => by simp only [EProg.bal, Option.some.injEq, Prod.mk.injEq] at h; obtain ⟨rfl, rfl⟩ := h; simp only [EProg.run]; omega
+  | .other _, u, a, h, s => by simp only [EProg.bal, Option.some.injEq, Prod.mk.injEq] at h; obtain ⟨rfl, rfl⟩ := h; simp only [EProg.run]; omega
+  | .update _, u, a, h, s => by
+    simp only [EProg.bal, Option.some.injEq, Prod.mk.injEq] at h; obtain ⟨rfl, rfl⟩ := h; simp only [EProg.run]; omega
+  | .activity, u, a, h, s => by
+    simp only [EProg.bal, Option.some.injEq, Prod.mk.injEq] at h; obtain ⟨rfl, rfl⟩ := h; simp only [EProg.run]; omega
+  | .seq p q, u, a, h, s => by
+    simp only [EProg.bal] at h
+    cases hp : p.bal with
+    | none => simp [hp] at h
+    | some x =>
+      obtain ⟨u1, a1⟩ := x
+      cases hq : q.bal with
+      | none => simp [hp, hq] at h
+      | some y =>
+        obtain ⟨u2, a2⟩ := y
+        simp only [hp, hq, Option.some.injEq, Prod.mk.injEq] at h
+        obtain ⟨rfl, rfl⟩ := h
+        have h1 := run_balanced p u1 a1 hp s
+        have h2 := run_balanced q u2 a2 hq (p.run s)
+        simp only [EProg.run]
+        omega
+  | .loop n body, u, a, h, s => by
+    simp only [EProg.bal] at h
+    cases hb : body.bal with
+    | none => simp [hb] at h
+    | some x =>
+      obtain ⟨ub, ab⟩ := x
+      simp only [hb] at h
+      by_cases e : ub = ab
+      · rw [if_pos e] at h
+        simp only [Option.some.injEq, Prod.mk.injEq] at h
+        obtain ⟨rfl, rfl⟩ := h
+        subst e
+        have := iter_balanced body.run (fun t => by have := run_balanced body ub ub hb t; omega) (n s.1) s
+        simp only [EProg.run]
+        omega
+      · rw [if_neg e] at h; cases h
+  | .alt c p q, u, a, h, s => by
+    simp only [EProg.bal] at h
+    cases hp : p.bal with
+    | none => simp [hp] at h
+    | some x =>
+      cases hq : q.bal with
+      | none => simp [hp, hq] at h
+      | some y =>
+        simp only [hp, hq] at h
+        by_cases e : x = y
+        · rw [if_pos e] at h
+          simp only [Option.some.injEq] at h
+          subst e
+          simp only [EProg.run]
+          split
+          · exact run_balanced p u a (by rw [hp, h]) s
+          · exact run_balanced q u a (by rw [hq, h]) s
+        · rw [if_neg e] at h; cases h
+
+/-- **one activity per executed update**: a balanced program started with both counters at zero ends with equal counters -/
+theorem one_activity_per_update {T : Type} (p : EProg T) (k : Nat) (h : p.bal = some (k, k)) (t : T) :
+    (p.run (t, 0, 0)).2.1 = (p.run (t, 0, 0)).2.2 := by
+  have := run_balanced p k k h (t, 0, 0)
+  simp only at this
+  omega
+
+-- non-vacuity: a nest with a data-dependent trip count, a slip-style bookkeeping statement between update and activity
+example : (EProg.loop (fun t : Nat => t) (.loop (fun t => t + 1) (.seq (.update fun t => t) (.seq (.other fun t => t) .activity)))).bal = some (0, 0) := by decide
+example : ((EProg.loop (fun t : Nat => t) (.loop (fun t => t + 1) (.seq (.update fun t => t) (.seq (.other fun t => t) .activity)))).run (3, 0, 0)).2 = (12, 12) := by decide
+-- an activity outside the innermost loop is not balanced
+example : (EProg.loop (fun t : Nat => t) (.seq .activity (.loop (fun t => t) (.update fun t => t)))).bal = none := by decide
 
 end C16
